@@ -88,6 +88,10 @@ def _run_spec(spec):
     if "mass_hi" in spec:
         mass = 10 ** rng.uniform(0, spec["mass_hi"], size=spec["n"])
     model = SynthModel(rng, spec["N"], spec["n"], scale=spec.get("scale", 0.02), gap=spec.get("gap", 0.01), mass=mass)
+    if spec.get("blocks"):
+        # a user-defined AdiabaticModel_ (truncated auxiliary problem) whose two kept states cross at x = 0
+        from ..synth import BlocksModel
+        model = BlocksModel(**spec["blocks"])
     if spec.get("int_mass"):
         model.mass = np.ceil(model.mass).astype(np.int64)       # a user-defined model with an integer-dtype mass vector
     cls = hc.get_class(spec["cls"])
@@ -321,6 +325,18 @@ def run(ctx):
         ctx.count("drift_runs")
         for r_ in obs["ratios"]:
             ctx.monitor("max_drift_ratio", r_)
+        if not ok:
+            ctx.oracle_fail("energy-drift-order", "drift", spec, obs, req, text)
+    # a single-surface run THROUGH a symmetry-allowed crossing of a truncated (AdiabaticModel_) problem: the continued state has
+    # overlap exactly zero with its reference there; the surfaces are twice differentiable, so the drift still shrinks ~4x
+    for j in range(ctx.budget(1, 6)):
+        nd = 1 + j % 2
+        bk = dict(ndim=nd, mass=[2000.0, 500.0][:nd], k=0.01, g=float(rng.uniform(0.003, 0.005)), D=0.2, t=0.03)
+        spec = dict(cls=["TrajectorySH", "TrajectoryCum"][j % 2], blocks=bk, N=2, n=nd, model_seed=1, seed=int(rng.integers(1, 10 ** 6)),
+                    x0=[-1.0, 0.3][:nd], p0=[float(rng.uniform(8.0, 12.0)), 1.0][:nd], state=0, dt=4.0, steps=160)
+        ok, obs, req, text = oracle_drift(spec)
+        ctx.case(("drift-through-crossing", nd, spec["cls"]))
+        ctx.count("drift_runs_through_symmetry_allowed_crossing")
         if not ok:
             ctx.oracle_fail("energy-drift-order", "drift", spec, obs, req, text)
     # stop / restart / continue with hops around the interruption point
